@@ -4,6 +4,8 @@
 //   Q=2  two traversals give the same sequence (compared at an arbitrary position)
 //   Q=3  begin() is the first valid position (or end())
 //   Q=4  one ++ (pre or post) from an ARBITRARY valid position reaches the next valid position in (vertex, list order), or end()
+//   Q=5  traversal, then one insertion through the class's own addEdge, then traversal again: the second one yields every edge
+//        (enumeration must not depend on anything remembered from an earlier traversal) - for each of the class families -DCLS
 // Q=3/4 are the inductive decomposition of the traversal: positions are visited in strictly increasing order, none is skipped,
 // and each edge (each unordered pair, each copy) owns exactly one valid position - so they cover graphs Q=1 cannot reach.
 #include "vh.h"
@@ -13,7 +15,22 @@ using namespace BaseGraph;
 #ifndef UND
 #define UND 0
 #endif
-#if UND
+#include "BaseGraph/directed_multigraph.hpp"
+#include "BaseGraph/undirected_multigraph.hpp"
+#include "BaseGraph/directed_weighted_graph.hpp"
+#include "BaseGraph/undirected_weighted_graph.hpp"
+#ifndef CLS
+#define CLS 0 /* 0: Labeled(Un)directedGraph<int>  1: multigraph  2: weighted graph (Q=5 only) */
+#endif
+#if CLS == 1 && UND
+typedef UndirectedMultigraph G;
+#elif CLS == 1
+typedef DirectedMultigraph G;
+#elif CLS == 2 && UND
+typedef UndirectedWeightedGraph G;
+#elif CLS == 2
+typedef DirectedWeightedGraph G;
+#elif UND
 typedef LabeledUndirectedGraph<int> G;
 #else
 typedef LabeledDirectedGraph<int> G;
@@ -107,6 +124,30 @@ extern "C" void harness() {
             if (nv > v + 1) REACH("++ skipped a vertex without entries to yield");
             if (UND && nv == v && nk > k + 1) REACH("++ skipped a half-edge of the larger endpoint");
         }
+    }
+#elif Q == 5
+    {
+        ASSUME(n > 0);
+#if CLS == 1
+        { size_t total = 0; for (unsigned i = 0; i < NM; ++i) for (unsigned j = (UND ? i : 0); j < NM; ++j) if (i < n && j < n && C[i][j]) { vh_label_set(g, i, j, 1u); total += 1; } g.totalEdgeNumber = total; }
+#elif CLS == 2
+        { long double total = 0; for (unsigned i = 0; i < NM; ++i) for (unsigned j = (UND ? i : 0); j < NM; ++j) if (i < n && j < n && C[i][j]) { vh_label_set(g, i, j, 1.0); total += 1.0; } g.totalWeight = total; }
+#else
+        for (unsigned i = 0; i < NM; ++i) for (unsigned j = (UND ? i : 0); j < NM; ++j) if (i < n && j < n && C[i][j]) vh_label_set(g, i, j, 1);
+#endif
+        size_t first = 0; for (auto e : g.edges()) { (void)e; ++first; }                     /* edge_walk */
+        CHECK(first == cnt, "the first traversal yields every edge");
+        unsigned a = nd(n), b = nd(n); ASSUME(!C[a][b]);
+#if CLS == 2
+        g.addEdge(a, b, 1.0);
+#else
+        g.addEdge(a, b);
+#endif
+        size_t second = 0; unsigned hits = 0;
+        for (auto e : g.edges()) { ++second; if ((e.first == a && e.second == b) || (UND && e.first == b && e.second == a)) ++hits; }   /* edge_walk */
+        CHECK(second == cnt + 1, "a traversal after an insertion yields every edge, the new one included");
+        CHECK(hits == 1, "the inserted edge is enumerated exactly once");
+        if (cnt > 0 && a < n - 1) REACH("insertion at a vertex before existing edges' vertices");
     }
 #endif
     REACH("end of harness");
